@@ -259,7 +259,46 @@ func main() {
 		build(scratch, true)
 		raceOuts = runWorkers(filepath.Join(scratch, "harness.race.test"), prop, tier, seed+1, nw, raceS*1000, raceEnv(scratch), scratch)
 	}
+	detSample = determinismSample(bin, prop, scratch)
 	finish(prop, tier, seed, nw, append(outs, raceOuts...), len(raceOuts), start, buildS, scratch)
+}
+
+var detSample string
+
+// determinismSample re-runs the first runs of this property in a few fresh
+// processes at different GOMAXPROCS and compares the history hashes; a
+// divergence is a simulator bug and makes the check exit 2.
+func determinismSample(bin, prop, scratch string) string {
+	const nproc, nruns = 4, 12
+	results := make([][]string, nproc)
+	var wg sync.WaitGroup
+	for p := 0; p < nproc; p++ {
+		wg.Add(1)
+		go func(p int) {
+			defer wg.Done()
+			outPath := filepath.Join(scratch, fmt.Sprintf("detsample-%d.json", p))
+			cmd := exec.Command(bin, "-test.run", "^TestWorker$")
+			cmd.Env = append(os.Environ(), "VERIF_PROP="+prop, "VERIF_MODE=hash", "VERIF_SEED=4242", "VERIF_MAXRUNS="+strconv.Itoa(nruns),
+				"VERIF_WORKER=0", "VERIF_NWORKERS=1", "VERIF_OUT="+outPath, "GOMAXPROCS="+[]string{"1", "2", "4", "16"}[p], "VERIF_TIER=quick")
+			cmd.CombinedOutput()
+			var o workerOut
+			data, _ := os.ReadFile(outPath)
+			json.Unmarshal(data, &o)
+			results[p] = o.Hashes
+		}(p)
+	}
+	wg.Wait()
+	if len(results[0]) != nruns {
+		os.RemoveAll(scratch)
+		infra("determinism sample: reference process produced %d of %d hashes", len(results[0]), nruns)
+	}
+	for p := 1; p < nproc; p++ {
+		if strings.Join(results[p], "\n") != strings.Join(results[0], "\n") {
+			os.RemoveAll(scratch)
+			infra("determinism sample: process %d diverged from process 0 on the same seeds (simulator nondeterminism)", p)
+		}
+	}
+	return fmt.Sprintf("%d seeds x %d fresh processes (GOMAXPROCS 1/2/4/16): identical history hashes", nruns, nproc)
 }
 
 // properties whose statement includes "without data races": part of the budget
@@ -379,6 +418,7 @@ func finish(prop, tier string, seed uint64, nw int, outs []*workerOut, nRace int
 		"workers":                      nw,
 		"race_build_workers":           nRace,
 		"race_build_runs":              raceRuns,
+		"determinism_sample":           detSample,
 		"faults_fired":                 agg.Faults,
 		"probes":                       agg.Probes,
 		"strategy_mix":                 agg.Strategies,
